@@ -83,7 +83,7 @@ Section Slash.
         rewrite H1, H2. reflexivity.
       + rewrite (initiate_validator_exit_already E st idx v Hv Hnf) in H. apply some_inj in H. subst st1.
         exists (fun v => v). split.
-        * unfold updN. rewrite (upd_nat_id (validators st) (N.to_nat idx) (fun v => v)) by reflexivity.
+        * rewrite updN_eq. rewrite (upd_nat_id (validators st) (N.to_nat idx) (fun v => v)) by reflexivity.
           symmetry. apply set_validators_id.
         * intros w _. split; [|split]; reflexivity.
     - unfold initiate_validator_exit in H. rewrite Hv in H. discriminate.
